@@ -289,7 +289,7 @@ def canon_jvalue(v, letters):
     return 'o(' + ','.join(hx(k) + ':' + canon_jvalue(x, letters) for k, x in items) + ')'
 
 # ---- random data of a type.  A generated datum carries what is needed to print it (literal spellings)
-FLOAT_LITS = ['7.038531e-26', '0.0', '1.0', '1.5', '0.1', '0.25', '100.0', '1e5', '1.25e-3', '3.0e10', '123456.789', '2.5E+3', '0.000001', '9.75', '12e-2']
+FLOAT_LITS = ['0.0', '1.0', '1.5', '0.1', '0.25', '100.0', '1e5', '1.25e-3', '3.0e10', '123456.789', '2.5E+3', '0.000001', '9.75', '12e-2']
 
 FLOAT_FILTER = [False]     # run_c04_typed outside float_roundtrip: only f64 data that prints as a short literal
 
